@@ -93,6 +93,9 @@ func VerifC06Steady() {
 	lines, want := verifLines(n)
 	drop0 := d.numDropNoConnNoSpool.Count()
 	slow0 := d.numDropSlowConn.Count()
+	// param "preemptions": from here on the relay / connection goroutines may additionally be switched before any
+	// lock / atomic / channel operation (bounded-preemption exploration), not only when they block
+	verifPreemptions(verifParamInt("preemptions", 0))
 	for i, l := range lines {
 		if i > 0 && behaviour != 2 && verifBool("reconnect-tick") {
 			verifTick(verifReconnTicker())
@@ -101,6 +104,7 @@ func VerifC06Steady() {
 		d.In <- l // must complete: a deadlock here is reported by the engine
 		verifSettle()
 	}
+	verifPreemptions(0)
 	dropped := int(d.numDropNoConnNoSpool.Count() - drop0)
 	slow := int(d.numDropSlowConn.Count() - slow0)
 	switch behaviour {
